@@ -2,7 +2,7 @@
    Only statements, `exact`, Print Assumptions (+ concrete non-vacuity examples). Definitions: Model/C04Model.v. *)
 From Coq Require Import List Arith Bool ZArith.
 From PV Require Import Base.Index Np.Array Model.Sparse Model.C04Model Proofs.C04Dense Proofs.C04Sparse Proofs.C04History Proofs.C04Admissible Proofs.C04RegionGet Proofs.C04Region
-  Model.Harness Model.C04Harness Model.C04Extra Proofs.C04NpAdv.
+  Model.Harness Model.C04Harness Model.C04Mat Model.C04Extra Proofs.C04NpAdv Proofs.C04Mat.
 Import ListNotations.
 
 Section C04.
@@ -107,9 +107,10 @@ Proof. exact sp_region_get_nnz. Qed.
 
 (* the decidable side conditions of the sparse model (positions pairwise distinct, padded old subscripts inside the grown shape)
    never fail for REGION writes either: whenever the specification accepts S[region] = rhs (scalar, zero or exactly shaped
-   tensor; growth of extent and order; index lists without a repeated index), so does the sparse model *)
+   tensor; growth of extent and order), so does the sparse model.  Wave 3: NO hypothesis on the key is left — an index list may
+   repeat an index (the positions then form a multiset; the model keeps the last value per position, as numpy does) *)
 Theorem C04_sparse_region_admissible : forall (S : sparse V) es (r : rhs V) s' asg,
-  wf_sp isz S -> Forall elem_nodup es ->
+  wf_sp isz S ->
   resolve_set cartF (sshape S) (KRegion es) r = Some (s', asg) ->
   exists S', step_sparse v0 isz S (OSet (KRegion es) r) = Some (S', ([], [])).
 Proof. exact (sparse_region_admissible v0 isz). Qed.
@@ -134,6 +135,46 @@ Theorem C04_np_adv_in_region : forall s es os ps ls,
   np_adv_positions s es = Some (os, ps) -> region_lists s es = Some ls ->
   Forall (fun p => In p (cartF (map snd ls))) ps.
 Proof. exact np_adv_positions_in_region. Qed.
+
+(* ---- wave 3: tenmat.__getitem__/__setitem__ and sptenmat.__setitem__ as instances of the refinement theorems: a matricised
+   tensor under entry access is a 2-way array of FIXED shape (Model/C04Mat.v; the comparers of the tenmat_rw / sptenmat_set
+   streams run the Z instances of exactly these step functions) ---- *)
+Theorem C04_tenmat_refine : forall (T : dense V) (o : op V), is_2way (dshape T) = true ->
+  match fixed_step_dense_g v0 T o, spec_fixed_step v0 (abs_dense v0 T) o with
+  | Some (T', out), Some (a', out') =>
+      eq_amap (abs_dense v0 T') a' /\ out = out' /\ dshape T' = dshape T /\ (wf_dense T -> wf_dense T')
+  | None, None => True
+  | _, _ => False
+  end.
+Proof. exact (tenmat_refine v0). Qed.
+
+Theorem C04_tenmat_history : forall ops (T : dense V) (a : amap V), is_2way (dshape T) = true -> eq_amap (abs_dense v0 T) a ->
+  match run (fixed_step_dense_g v0) T ops, run (spec_fixed_step v0) a ops with
+  | Some (T', outs), Some (a', outs') => eq_amap (abs_dense v0 T') a' /\ outs = outs' /\ dshape T' = dshape T
+  | None, None => True
+  | _, _ => False
+  end.
+Proof. exact (tenmat_history v0). Qed.
+
+Theorem C04_sptenmat_refine : forall (S : sparse V) (o : op V) S' out,
+  wf_sp isz S -> fixed_step_sparse_g v0 isz S o = Some (S', out) ->
+  exists a', spec_fixed_step v0 (abs_sp v0 S) o = Some (a', out) /\ eq_amap (abs_sp v0 S') a' /\ wf_sp isz S' /\
+             sshape S' = sshape S /\ is_2way (sshape S') = true.
+Proof. exact (sptenmat_refine v0 isz isz_spec). Qed.
+
+Theorem C04_sptenmat_refine_total : forall (S : sparse V) (o : op V) a' out,
+  wf_sp isz S -> is_2way (sshape S) = true -> sparse_op_ok o ->
+  spec_fixed_step v0 (abs_sp v0 S) o = Some (a', out) ->
+  exists S', fixed_step_sparse_g v0 isz S o = Some (S', out) /\ eq_amap (abs_sp v0 S') a' /\ wf_sp isz S' /\
+             sshape S' = sshape S.
+Proof. exact (sptenmat_refine_total v0 isz isz_spec). Qed.
+
+Theorem C04_sptenmat_history_total : forall ops (S : sparse V) a a' outs,
+  wf_sp isz S -> is_2way (sshape S) = true -> eq_amap (abs_sp v0 S) a -> Forall sparse_op_ok ops ->
+  run (spec_fixed_step v0) a ops = Some (a', outs) ->
+  exists S', run (fixed_step_sparse_g v0 isz) S ops = Some (S', outs) /\ eq_amap (abs_sp v0 S') a' /\ wf_sp isz S' /\
+             sshape S' = sshape S.
+Proof. exact (sptenmat_history_total v0 isz isz_spec). Qed.
 End C04.
 
 (* slices never address a position twice (Python slice semantics, any bounds and any non-zero step) *)
@@ -170,6 +211,11 @@ Print Assumptions C04_history_sparse_total.
 Print Assumptions C04_np_adv_in_region.
 Print Assumptions C04_slice_positions_distinct.
 Print Assumptions C04_a16_dense_sparse_disagree.
+Print Assumptions C04_tenmat_refine.
+Print Assumptions C04_tenmat_history.
+Print Assumptions C04_sptenmat_refine.
+Print Assumptions C04_sptenmat_refine_total.
+Print Assumptions C04_sptenmat_history_total.
 
 (* non-vacuity: a concrete history on a 2x3 tensor whose sparse form is stored out of order — write by subscripts with a
    duplicate and a zero (deletes [0,0]), grow by a full subscript, write a stepped region, read linearly and by region *)
@@ -204,9 +250,22 @@ Example C04_example_region_total :
   sparse_op_ok (OSet (KRegion [KSlice None (Some 3) (Some 2); KList [2; 0]; KInt 1]) (RValues [5; 0; 6; 7])) /\
   option_map fst (step_sparse 0 (Z.eqb 0) ex_S (OSet (KRegion [KSlice None (Some 3) (Some 2); KList [2; 0]; KInt 1]) (RValues [5; 0; 6; 7]))) =
   Some (mkSp [3; 3; 2]%nat [[1; 1; 0]; [0; 0; 0]; [0; 2; 0]; [0; 2; 1]; [0; 0; 1]; [2; 0; 1]]%nat [1; 2; 3; 5; 6; 7]).
-Proof. split; [exact ex_region_key_nodup|vm_compute; reflexivity]. Qed.
+Proof. split; [exact I|vm_compute; reflexivity]. Qed.
 
 Example C04_example_region_read_wf :
   option_map (wf_spb (Z.eqb 0)) (sp_region_get ex_S [KSlice None None (Some (-1)); KList [2; 0]]) = Some true /\
   sp_region_get ex_S [KSlice None None (Some (-1)); KList [2; 0]] = Some (mkSp [2; 2]%nat [[1; 1]; [1; 0]]%nat [2; 3]).
 Proof. split; vm_compute; reflexivity. Qed.
+
+(* wave 3 non-vacuity: a 2x3 matricised tensor; M[1, 0] = 0 removes the stored entry, M[[1;1], 0:2] = 7 (an index REPEATED
+   inside the key list) is accepted and stores every position once; a request that would resize is rejected *)
+Example C04_example_sptenmat :
+  option_map fst (fixed_step_sparse_g 0 (Z.eqb 0) ex_S (OSet (KRegion [KInt 0; KInt 0]) (RScalar 0))) =
+    Some (mkSp [2; 3]%nat [[1; 1]; [0; 2]]%nat [1; 3]) /\
+  option_map (fun x => wf_spb (Z.eqb 0) (fst x)) (fixed_step_sparse_g 0 (Z.eqb 0) ex_S (OSet (KRegion [KList [1; 1]; KSlice (Some 0) (Some 2) None]) (RScalar 7))) = Some true /\
+  option_map (fun x => full 0 (fst x)) (fixed_step_sparse_g 0 (Z.eqb 0) ex_S (OSet (KRegion [KList [1; 1]; KSlice (Some 0) (Some 2) None]) (RScalar 7))) =
+    Some (mkDense [2; 3]%nat [2; 7; 0; 7; 3; 0]) /\
+  fixed_step_sparse_g 0 (Z.eqb 0) ex_S (OSet (KRegion [KInt 2; KInt 0]) (RScalar 1)) = None /\
+  option_map fst (fixed_step_dense_g 0 ex_T (OSet (KRegion [KList [1; 1]; KSlice None None None]) (RValues [5; 6; 7; 8; 9; 4]))) =
+    Some (mkDense [2; 3]%nat [2; 6; 0; 8; 3; 4]).
+Proof. repeat split; vm_compute; reflexivity. Qed.
